@@ -112,6 +112,20 @@ def entry_calls(repo: Repo, fi: FuncInfo) -> list[tuple[ast.Call, str, str]]:
                     if isinstance(e, ast.Name):
                         bound[e.id] = (src, i)
 
+    # element reads into a local (`cb = entry[0]`, also the bindings a `match` on the entry is lowered to): every
+    # assignment of the name must read the same element of a registry entry
+    elem: dict[str, set] = {}
+    for n in repo.own_nodes(fi):
+        if isinstance(n, ast.Assign) and len(n.targets) == 1 and isinstance(n.targets[0], ast.Name):
+            v = n.value
+            if isinstance(v, ast.Subscript) and isinstance(v.slice, ast.Constant) and isinstance(v.slice.value, int) and "_callbacks" in _xt(repo, fi, v.value):
+                elem.setdefault(n.targets[0].id, set()).add((_xt(repo, fi, v.value), v.slice.value))
+            else:
+                elem.setdefault(n.targets[0].id, set()).add(None)
+    for k, vs in elem.items():
+        if len(vs) == 1 and None not in vs and k not in bound:
+            bound[k] = next(iter(vs))
+
     def entry_pos(e: ast.AST) -> tuple[str, int] | None:
         if isinstance(e, ast.Name) and e.id in bound:
             return bound[e.id]
